@@ -108,8 +108,11 @@ func (op *pipelineOp) exec(fm *Frame) Exception {
 		var fops []formOwnedPort
 		inputIsPipe := i > 0
 		outputIsPipe := i < nforms-1
+		// Kept separately from newFm.ports[0], which the form may redirect.
+		var input *Port
 		if inputIsPipe {
-			newFm.ports[0] = nextIn
+			input = nextIn
+			newFm.ports[0] = input
 			growAccess(&fops, 0).File = true
 		}
 		if outputIsPipe {
@@ -139,7 +142,6 @@ func (op *pipelineOp) exec(fm *Frame) Exception {
 				*pexc = exc
 			}
 			if inputIsPipe {
-				input := newFm.ports[0]
 				*input.sendError = errs.ReaderGone{}
 				close(input.sendStop)
 				input.readerGone.Store(true)
